@@ -222,9 +222,9 @@ def contains_template(value):
 # ---------------------------------------------------------------------------
 # the option universe
 
-TOP = ["A", "B", "C"]
+TOP = ["A", "B", "C", "K-1", "K 2"]  # (K-1, K 2: legal option names that are not identifiers - a dash, a space)
 SECTION_KEYS = ["S.X", "S.Y", "T.X"]
-LIST_KEYS = ["L.0", "L.1"]
+LIST_KEYS = ["L.0", "L.1", "L.-1"]  # (L.-1: the last element)
 DISPATCH_KEYS = ["D", "E"]
 NOISE = ["N1", "N2"]
 SWITCHES = [
@@ -240,8 +240,8 @@ HASHABLE = [0, 1, 2, True, False, None, "", "a", "b", "x", "y"]
 CONTAINERS = [[], [1], [0, "a"], [[1], 2]]
 DICT_VALUES = [{}, {"X": 1}]  # only where no template can reference them mid-string (str(dict) has braces)
 VALUES = SCALARS + CONTAINERS
-TEMPLATED = ["{A}", "{S.X}-{B}", "{B}", "{C}", "p{T.X}q", "{S.Y}", "{L.0}", "{A}{B}"]
-DISPATCH_VALUES = ["x", "y", "z", 0, 1, True, None, "a"]
+TEMPLATED = ["{A}", "{S.X}-{B}", "{B}", "{C}", "p{T.X}q", "{S.Y}", "{L.0}", "{A}{B}", "{K-1}", "p{K 2}q", "{L.-1}"]
+DISPATCH_VALUES = ["x", "y", "z", 0, 1, True, None, "a", "5%"]  # (5%: text with a percent sign ends up inside messages)
 
 
 def random_value(rng, templated=0.15, containers=True):
@@ -341,7 +341,7 @@ def perturb(rng, options, keys=None, kinds=("change", "delete", "add"), closed_o
                 # list element: rewrite the whole list
                 lst = list(lookup("L", options)) if isinstance(lookup("L", options), list) else []
                 idx = int(k.split(".")[1])
-                while len(lst) <= idx:
+                while len(lst) <= idx or (idx < 0 and len(lst) < -idx):
                     lst.append(rng.choice(SCALARS))
                 lst[idx] = _different(rng, lst[idx])
                 new = set_path(options, "L", lst)
@@ -391,14 +391,23 @@ def history(rng, length, keys=None, p_present=0.6, templated=0.15, permute=True,
     """Sequence of colliding dictionaries: perturbations, revisits, noise, permutations."""
     base = random_options(rng, p_present, templated, closed_only=closed_only)
     seq = [base]
+
+    def reach(src):
+        # the keys the program mentions AND the keys the dictionary's own templated values refer to (a program that
+        # reads A depends on K-1 when A holds '{K-1}')
+        if keys is None:
+            return None
+        extra = sorted(k for k in _all_refs(src) if k not in keys and all(p for p in k.split(".")))
+        return list(keys) + extra
+
     while len(seq) < length:
         r = rng.random()
         src = rng.choice(seq)
         if r < 0.5:
-            new, _, _ = perturb(rng, src, keys, closed_only=closed_only)
+            new, _, _ = perturb(rng, src, reach(src), closed_only=closed_only)
         elif r < 0.62:
-            new, _, _ = perturb(rng, src, keys, closed_only=closed_only)
-            new, _, _ = perturb(rng, new, keys, closed_only=closed_only)
+            new, _, _ = perturb(rng, src, reach(src), closed_only=closed_only)
+            new, _, _ = perturb(rng, new, reach(new), closed_only=closed_only)
         elif r < 0.74:
             new = copy.deepcopy(src)
         elif r < 0.84:
@@ -409,6 +418,16 @@ def history(rng, length, keys=None, p_present=0.6, templated=0.15, permute=True,
             new = random_options(rng, p_present, templated, closed_only=closed_only)
         seq.append(new)
     return seq
+
+
+def _all_refs(value):
+    if isinstance(value, dict):
+        return set().union(*[_all_refs(v) for v in value.values()]) if value else set()
+    if isinstance(value, list):
+        return set().union(*[_all_refs(v) for v in value]) if value else set()
+    if isinstance(value, str):
+        return set(template_keys(value))
+    return set()
 
 
 def sub_dictionaries(options, limit=256):
